@@ -2024,6 +2024,28 @@ static int32 parseSSLHandshake(ssl_t *ssl, char *inbuf, uint32 len)
             c = ssl->fragMessage + ssl->hshakeHeadLen;
             end = ssl->fragMessage + ssl->fragTotal;
             hsLen = ssl->fragTotal - ssl->hshakeHeadLen;
+            /* The snapshots of the handshake hash that Finished and
+               CertificateVerify are checked against live in a local of
+               the call that saw the first fragment: take them again now
+               (the fragmented message itself has not been hashed yet) */
+            if (ssl->hsState == SSL_HS_FINISHED)
+            {
+                if (sslSnapshotHSHash(ssl, hsMsgHash, PS_FALSE, PS_TRUE) <= 0)
+                {
+                    ssl->err = SSL_ALERT_INTERNAL_ERROR;
+                    return MATRIXSSL_ERROR;
+                }
+            }
+#ifdef USE_CLIENT_AUTH
+            if (ssl->hsState == SSL_HS_CERTIFICATE_VERIFY)
+            {
+                if (sslSnapshotHSHash(ssl, hsMsgHash, PS_FALSE, PS_FALSE) <= 0)
+                {
+                    ssl->err = SSL_ALERT_INTERNAL_ERROR;
+                    return MATRIXSSL_ERROR;
+                }
+            }
+#endif /* USE_CLIENT_AUTH */
             goto SKIP_HSHEADER_PARSE;
         }
         else
